@@ -332,7 +332,7 @@ type pureResult struct {
 
 // pureCall symbolically evaluates fn (ghost / spec code) on all paths and merges the results.
 func (m *Machine) pureCall(st *State, fn *ssa.Function, args []Value, fvals []Value) []Value {
-	sub := &State{pure: true, heap: cloneHeap(st.heap), locks: st.locks, chanQ: map[int][]chanQuery{}, chanVer: st.chanVer, definable: st.definable, defs: st.defs}
+	sub := &State{pure: true, opaque: st.opaque, heap: cloneHeap(st.heap), locks: st.locks, chanQ: map[int][]chanQuery{}, chanVer: st.chanVer, definable: st.definable, defs: st.defs}
 	sub.pc = append([]*Term{}, st.pc...)
 	sub.events = st.events
 	sub.fresh = make([]*freshObj, len(st.fresh))
@@ -624,6 +624,9 @@ func init() {
 			return s.Arr
 		},
 		"evCount": func(m *Machine, st *State, fr *Frame, instr ssa.Instruction, fn *ssa.Function, args []Value) Value {
+			if st.opaque != 0 {
+				return m.ctx.App(fmt.Sprintf("calleeEvCount!%d!%s", st.opaque, constStringArg(instr, 0)), m.ts.Idx())
+			}
 			name := constStringArg(instr, 0)
 			n := 0
 			for _, e := range st.events {
@@ -634,9 +637,15 @@ func init() {
 			return m.ts.IdxConst(int64(n))
 		},
 		"evTotal": func(m *Machine, st *State, fr *Frame, instr ssa.Instruction, fn *ssa.Function, args []Value) Value {
+			if st.opaque != 0 {
+				return m.ctx.App(fmt.Sprintf("calleeEvTotal!%d", st.opaque), m.ts.Idx())
+			}
 			return m.ts.IdxConst(int64(len(st.events)))
 		},
 		"evIndex": func(m *Machine, st *State, fr *Frame, instr ssa.Instruction, fn *ssa.Function, args []Value) Value {
+			if st.opaque != 0 {
+				return m.ctx.App(fmt.Sprintf("calleeEvIndex!%d!%s", st.opaque, constStringArg(instr, 0)), m.ts.Idx(), args[1].(*Term))
+			}
 			name := constStringArg(instr, 0)
 			k := m.constIntArg(instr, 1, args[1])
 			n := 0
@@ -651,6 +660,11 @@ func init() {
 			return m.ts.IdxConst(-1)
 		},
 		"evBytes": func(m *Machine, st *State, fr *Frame, instr ssa.Instruction, fn *ssa.Function, args []Value) Value {
+			if st.opaque != 0 {
+				nm := fmt.Sprintf("calleeEvBytes!%d!%s", st.opaque, constStringArg(instr, 0))
+				k, a := args[1].(*Term), args[2].(*Term)
+				return &SeqV{N: m.ctx.App(nm+".len", m.ts.Idx(), k, a), At: func(i *Term) *Term { return m.ctx.App(nm+".at", m.ts.ByteSort(), k, a, i) }}
+			}
 			e := m.findEvent(st, constStringArg(instr, 0), m.constIntArg(instr, 1, args[1]))
 			if e == nil {
 				return &SeqV{N: m.ts.IdxConst(-1), At: func(*Term) *Term { return m.ts.zeroOf(m.ts.ByteSort()) }}
@@ -662,6 +676,9 @@ func init() {
 			return s
 		},
 		"evArg": func(m *Machine, st *State, fr *Frame, instr ssa.Instruction, fn *ssa.Function, args []Value) Value {
+			if st.opaque != 0 {
+				return m.opaqueEvValue(st, fn, "calleeEvArg", constStringArg(instr, 0), args[1].(*Term), args[2].(*Term))
+			}
 			e := m.findEvent(st, constStringArg(instr, 0), m.constIntArg(instr, 1, args[1]))
 			rt := fn.Signature.Results().At(0).Type()
 			if e == nil {
@@ -670,6 +687,9 @@ func init() {
 			return e.Args[m.constIntArg(instr, 2, args[2])]
 		},
 		"evRet": func(m *Machine, st *State, fr *Frame, instr ssa.Instruction, fn *ssa.Function, args []Value) Value {
+			if st.opaque != 0 {
+				return m.opaqueEvValue(st, fn, "calleeEvRet", constStringArg(instr, 0), args[1].(*Term), args[2].(*Term))
+			}
 			e := m.findEvent(st, constStringArg(instr, 0), m.constIntArg(instr, 1, args[1]))
 			rt := fn.Signature.Results().At(0).Type()
 			if e == nil {
@@ -688,6 +708,9 @@ func init() {
 
 
 func (m *Machine) entryFresh(st *State) int {
+	if len(st.frames) == 0 {
+		return 0
+	}
 	if fr := st.frames[0]; fr != nil && fr.entry != nil {
 		if v, ok := fr.entry["$nfresh"]; ok {
 			return int(v.(*Term).num.Int64())
@@ -732,4 +755,14 @@ func (m *Machine) quant(st *State, args []Value, universal bool) Value {
 		return c.Forall([]*Term{i}, c.Implies(rng, body))
 	}
 	return c.Exists([]*Term{i}, c.And(rng, body))
+}
+
+// opaqueEvValue: an event observation inside a callee whose body is not visible at this call site.
+func (m *Machine) opaqueEvValue(st *State, fn *ssa.Function, kind, name string, k, a *Term) Value {
+	rt := fn.Signature.Results().At(0).Type()
+	var terms []*Term
+	for _, l := range m.ts.Leaves(rt) {
+		terms = append(terms, m.ctx.App(fmt.Sprintf("%s!%d!%s.%s", kind, st.opaque, name, l.path), l.sort, k, a))
+	}
+	return m.ts.Unflatten(rt, &terms)
 }
